@@ -60,8 +60,9 @@ func loadFactor() int {
 	var running, total int
 	fmt.Sscanf(f[3], "%d/%d", &running, &total)
 	n := float64(runtime.NumCPU())
-	x := avg / n
-	if y := float64(running) / n; y > x {
+	// one check keeps about one solver per core busy by itself: only what goes beyond that counts as foreign load
+	x := (avg-n)/n + 1
+	if y := (float64(running)-n)/n + 1; y > x {
 		x = y
 	}
 	if x < 1 {
